@@ -20,7 +20,8 @@ RULE = (
     "with time, scaled centroid, scaled area; edge (a,b) <=> time(b) == time(a)+1 and d(a,b) <= r, "
     "decided by comparing d^2 and r^2 as Fractions; a pair whose |d^2-r^2| <= 1e-9 is asserted only "
     "when it is an exact tie of exactly representable numbers (inclusive), else don't-care; "
-    "requested IoU == |A and B|/|A or B|. Non-trivial = an empty frame between non-empty ones, or "
+    "requested IoU == |A and B|/|A or B|. Point lists: the graph of a second call on the same "
+    "float64 array object is judged against the same point list (a sweep re-uses the array). Non-trivial = an empty frame between non-empty ones, or "
     "a pair at distance exactly r; distinct by (frame occupancy pattern, ndim, tie, r class)."
 )
 ASSUMPTIONS = ["scale[0] == 1 (documented dummy for the time axis)",
